@@ -16,6 +16,8 @@
 (*   6    named "reduce"      7  parameterised         8  two-to-one x>>1    *)
 (*   9    named "oracle"      10 inner-product pred    11 named "ast2ast"    *)
 (*   12   Qfixed predicate with the float literal 1.0   13 Qchar predicate   *)
+(*   14   parameterised by a LIST consumed by sum / any (folded by the ast    *)
+(*        rewriter at bind time: binding twice must not see the first fold)  *)
 (***************************************************************************)
 EXTENDS Integers, Sequences, FiniteSets, TLC, Json
 
@@ -24,7 +26,7 @@ VARIABLES live, hist
 
 Pred1 == {1, 2, 10, 5 + 100}     \* single-argument predicates (105: never a program; keeps the set a set of ints)
 Kind(p) == CASE p \in {1, 2, 10} -> "pred" [] p \in {3, 8, 9} -> "fun" [] p = 4 -> "caller" [] p \in {5, 6, 11, 12, 13} -> "bool2"
-             [] p = 7 -> "param"
+             [] p \in {7, 14} -> "param"
 
 Obj(k, term) == [k |-> k, term |-> term]
 T(op, args) == [op |-> op, args |-> args]
